@@ -180,6 +180,25 @@ def innerProducts (Cs : List (List (List α))) (ws : List (List α)) (fv : List 
 
 end Scalar
 
+/-! ### `|det J|` (`geo_det = np.abs(assemble_tools.determinants(geo_jac))`) -/
+
+section Abs
+variable {α : Type} [Zero α] [Add α] [Mul α] [Neg α] [LT α] [DecidableLT α]
+
+/-- `np.abs` -/
+def absVal (x : α) : α := if x < 0 then -x else x
+
+/-- `inner_products(kvs, f, geo=geo)`: the **signed** determinants `dets` of the Jacobian at the
+tensor-grid nodes go through `np.abs` before they multiply the weighted function values. -/
+def innerProductsGeo (Cs : List (List (List α))) (ws : List (List α)) (fv dets : List α) : List α :=
+  innerProducts Cs ws fv (some (dets.map absVal))
+
+/-- `integrate(kvs, f, geo=geo)` with signed determinants `dets` -/
+def integrateGeo (ws : List (List α)) (fv dets : List α) : α :=
+  integrate ws fv (some (dets.map absVal))
+
+end Abs
+
 /-! ### quadrature rules -/
 
 section Quad
